@@ -80,6 +80,7 @@ type SpecFile struct {
 	Axioms    []*Clause
 	Lemmas    []*Lemma
 	Stable    []string
+	Groups    map[string][]string // designator -> group designators it also answers to
 }
 
 type Lemma struct {
@@ -668,6 +669,20 @@ func ParseSpecFile(path string, pkg string, requirePrefix bool) (*SpecFile, erro
 			sf.Axioms = append(sf.Axioms, &Clause{Kind: "axiom", Tags: tags, Expr: e, Text: rest, File: path, Line: l.no})
 		case "assume_stable":
 			sf.Stable = append(sf.Stable, strings.Fields(l.text)[1:]...)
+		case "designator_group":
+			// designator_group <name> <designator>... : calls to any of the listed functions also
+			// answer to <name> (same leading arguments, same results), so that a contract can
+			// describe "the read" without naming which of two equivalent library calls is used
+			f := strings.Fields(l.text)
+			if len(f) < 3 {
+				return nil, fail(l.no, "designator_group needs a name and members")
+			}
+			if sf.Groups == nil {
+				sf.Groups = map[string][]string{}
+			}
+			for _, m := range f[2:] {
+				sf.Groups[m] = append(sf.Groups[m], f[1])
+			}
 		case "trusted", "pure", "inline", "noframe":
 			if cur == nil {
 				return nil, fail(l.no, "%s outside a contract", word)
